@@ -110,26 +110,30 @@ theorem OkLt.ok {α} {n : Nat} {a : α} {rest : List ATok} (h : rest.length < n)
 theorem OkLe.ok {α} {n : Nat} {a : α} {rest : List ATok} (h : rest.length ≤ n) : OkLe (R.ok a rest) n :=
   ⟨fun h => (by cases h), fun _ _ h' => (by cases h'; exact h)⟩
 
-theorem arrayDims_le : ∀ (n : Nat) (base : Spec) (toks : List ATok), toks.length ≤ n → OkLe (arrayDims base toks) toks.length
-  | 0, base, toks, h => by
+theorem arrayDims_le : ∀ (n : Nat) (depth levels : Nat) (base : Spec) (toks : List ATok), toks.length ≤ n →
+    OkLe (arrayDims depth levels base toks) toks.length
+  | 0, depth, levels, base, toks, h => by
     have : toks = [] := List.eq_nil_of_length_eq_zero (by omega)
     subst this
     rw [arrayDims]
     · exact OkLe.ok (Nat.le_refl _)
     · intro rest h; cases h
-  | n + 1, base, toks, h => by
+  | n + 1, depth, levels, base, toks, h => by
     unfold arrayDims
     split
     · rename_i rest
       split
-      · rename_i c rest'
-        split
-        · rename_i rest''
-          have := arrayDims_le n (.array base (dimOf c)) rest'' (by simp only [List.length_cons] at h; omega)
-          refine ⟨this.1, ?_⟩
-          intro a r hr
-          have := this.2 a r hr
-          simp only [List.length_cons]; omega
+      · split
+        · rename_i c rest'
+          split
+          · rename_i rest''
+            have := arrayDims_le n depth (levels + 1) (.array base (dimOf c)) rest''
+              (by simp only [List.length_cons] at h; omega)
+            refine ⟨this.1, ?_⟩
+            intro a r hr
+            have := this.2 a r hr
+            simp only [List.length_cons]; omega
+          · exact OkLe.err _
         · exact OkLe.err _
       · exact OkLe.err _
     · exact OkLe.ok (Nat.le_refl _)
@@ -197,26 +201,26 @@ theorem typeEnum_le (types : TypeSet) (toks : List ATok) : OkLe (typeEnum types 
       · exact OkLe.err _
     · exact OkLe.err _
 
-def PType (f : Nat) : Prop := ∀ types tok toks, 4 * toks.length + 4 ≤ f → OkLe (type_ f types tok toks) toks.length
-def PSLoop (f : Nat) : Prop := ∀ types acc toks, 4 * toks.length + 3 ≤ f → OkLt (structLoop f types acc toks) toks.length
-def PTLoop (f : Nat) : Prop := ∀ types ar acc toks, 4 * toks.length + 4 ≤ f → OkLt (taggedLoop f types ar acc toks) toks.length
-def PTMem (f : Nat) : Prop := ∀ types ar toks, 4 * toks.length + 3 ≤ f → OkLt (taggedMember f types ar toks) toks.length
-def PTDef (f : Nat) : Prop := ∀ types toks, 4 * toks.length + 2 ≤ f → OkLt (taggedDef f types toks) toks.length
-def PMem (f : Nat) : Prop := ∀ types toks, 4 * toks.length + 1 ≤ f → OkLt (member f types toks) toks.length
+def PType (f : Nat) : Prop := ∀ types d tok toks, 4 * toks.length + 4 ≤ f → OkLe (type_ f types d tok toks) toks.length
+def PSLoop (f : Nat) : Prop := ∀ types d acc toks, 4 * toks.length + 3 ≤ f → OkLt (structLoop f types d acc toks) toks.length
+def PTLoop (f : Nat) : Prop := ∀ types d ar acc toks, 4 * toks.length + 4 ≤ f → OkLt (taggedLoop f types d ar acc toks) toks.length
+def PTMem (f : Nat) : Prop := ∀ types d ar toks, 4 * toks.length + 3 ≤ f → OkLt (taggedMember f types d ar toks) toks.length
+def PTDef (f : Nat) : Prop := ∀ types d toks, 4 * toks.length + 2 ≤ f → OkLt (taggedDef f types d toks) toks.length
+def PMem (f : Nat) : Prop := ∀ types d toks, 4 * toks.length + 1 ≤ f → OkLt (member f types d toks) toks.length
 
 theorem member_step (f : Nat) (ih : PType f) : PMem (f + 1) := by
-  intro types toks h
+  intro types d toks h
   rw [member.eq_def]
   dsimp only
   split
   · exact OkLt.err _
   · rename_i tok rest
     simp only [List.length_cons] at h ⊢
-    have h1 := ih types tok rest (by omega)
+    have h1 := ih types d tok rest (by omega)
     split
     · rename_i nm base rest1 heq
       have h2 := h1.2 _ _ heq
-      have h3 := arrayDims_le rest1.length base rest1 (Nat.le_refl _)
+      have h3 := arrayDims_le rest1.length d (specDepth base) base rest1 (Nat.le_refl _)
       refine ⟨h3.1, ?_⟩
       intro a r hr
       have := h3.2 a r hr
@@ -225,13 +229,13 @@ theorem member_step (f : Nat) (ih : PType f) : PMem (f + 1) := by
     · rename_i heq; exact absurd heq h1.1
 
 theorem taggedDef_step (f : Nat) (ih : PMem f) : PTDef (f + 1) := by
-  intro types toks h
+  intro types d toks h
   rw [taggedDef.eq_def]
   dsimp only
   split
   · rename_i rest
     simp only [List.length_cons] at h ⊢
-    have h1 := ih types rest (by omega)
+    have h1 := ih types (d + 1) rest (by omega)
     split
     · rename_i m rest1 heq
       have h2 := h1.2 _ _ heq
@@ -242,7 +246,7 @@ theorem taggedDef_step (f : Nat) (ih : PMem f) : PTDef (f + 1) := by
       · exact OkLt.err _
     · exact OkLt.err _
     · rename_i heq; exact absurd heq h1.1
-  · exact ih types toks (by omega)
+  · exact ih types d toks (by omega)
 
 theorem skipIf_le (b : Bool) (tok : ATok) (rest : List ATok) (r : Bool) (tok' : ATok) (rest' : List ATok)
     (h : skipIf b tok rest = some (r, tok', rest')) : rest'.length ≤ rest.length := by
@@ -264,7 +268,7 @@ theorem tagClose_le (rep : Bool) (t : Tagged Spec) (rest : List ATok) : OkLe (ta
   · exact OkLe.ok (Nat.le_refl _)
 
 theorem taggedMember_step (f : Nat) (ih : PTDef f) : PTMem (f + 1) := by
-  intro types ar toks h
+  intro types d ar toks h
   rw [taggedMember.eq_def]
   dsimp only
   split
@@ -281,12 +285,12 @@ theorem taggedMember_step (f : Nat) (ih : PTDef f) : PTMem (f + 1) := by
         have l2 := skipIf_le _ _ _ _ _ _ hs2
         split
         · rename_i tg
-          have hinner : OkLe (tagInner (taggedDef f types) rest2) rest2.length := by
+          have hinner : OkLe (tagInner (taggedDef f types d) rest2) rest2.length := by
             unfold tagInner
             split
             · exact OkLe.ok (Nat.le_refl _)
             · exact OkLe.ok (Nat.le_refl _)
-            · have := ih types rest2 (by omega)
+            · have := ih types d rest2 (by omega)
               exact ⟨this.1, fun a r hr => Nat.le_of_lt (this.2 a r hr)⟩
           split
           · rename_i item rest3 heq
@@ -298,10 +302,10 @@ theorem taggedMember_step (f : Nat) (ih : PTDef f) : PTMem (f + 1) := by
         · exact OkLt.err _
 
 theorem taggedLoop_step (f : Nat) (ih1 : PTMem f) (ih2 : PTLoop f) : PTLoop (f + 1) := by
-  intro types ar acc toks h
+  intro types d ar acc toks h
   rw [taggedLoop.eq_def]
   dsimp only
-  have h1 := ih1 types ar toks (by omega)
+  have h1 := ih1 types d ar toks (by omega)
   split
   · rename_i m rest heq
     have l1 := h1.2 _ _ heq
@@ -310,17 +314,17 @@ theorem taggedLoop_step (f : Nat) (ih1 : PTMem f) (ih2 : PTLoop f) : PTLoop (f +
       simp only [List.length_cons] at l1
       split
       · exact OkLt.ok (by simp only [List.length_cons] at l1; omega)
-      · have := ih2 types ar (insertTagged m acc) rest1 (by omega)
+      · have := ih2 types d ar (insertTagged m acc) rest1 (by omega)
         exact ⟨this.1, fun a r hr => by have := this.2 a r hr; omega⟩
     · exact OkLt.err _
   · exact OkLt.err _
   · rename_i heq; exact absurd heq h1.1
 
 theorem structLoop_step (f : Nat) (ih1 : PMem f) (ih2 : PSLoop f) : PSLoop (f + 1) := by
-  intro types acc toks h
+  intro types d acc toks h
   rw [structLoop.eq_def]
   dsimp only
-  have h1 := ih1 types toks (by omega)
+  have h1 := ih1 types d toks (by omega)
   split
   · rename_i m rest heq
     have l1 := h1.2 _ _ heq
@@ -329,81 +333,89 @@ theorem structLoop_step (f : Nat) (ih1 : PMem f) (ih2 : PSLoop f) : PSLoop (f + 
       simp only [List.length_cons] at l1
       split
       · exact OkLt.ok (by simp only [List.length_cons] at l1; omega)
-      · have := ih2 types (m :: acc) rest1 (by omega)
+      · have := ih2 types d (m :: acc) rest1 (by omega)
         exact ⟨this.1, fun a r hr => by have := this.2 a r hr; omega⟩
     · exact OkLt.err _
   · exact OkLt.err _
   · rename_i heq; exact absurd heq h1.1
 
 theorem type_step (f : Nat) (ih1 : PSLoop f) (ih2 : PTLoop f) : PType (f + 1) := by
-  intro types tok toks h
+  intro types d tok toks h
   rw [type_.eq_def]
   dsimp only
   split
-  iterate 10 exact OkLe.ok (Nat.le_refl _)
-  · exact typeEnum_le types toks
-  · have hn := optionalName_le toks
-    generalize optionalName toks = nt at hn ⊢
-    obtain ⟨name, toks'⟩ := nt
-    dsimp only at hn ⊢
-    split
-    · rename_i rest
-      simp only [List.length_cons] at hn
-      have h1 := ih1 types [] rest (by omega)
+  · split
+    iterate 10 exact OkLe.ok (Nat.le_refl _)
+    · exact typeEnum_le types toks
+    · have hn := optionalName_le toks
+      generalize optionalName toks = nt at hn ⊢
+      obtain ⟨name, toks'⟩ := nt
+      dsimp only at hn ⊢
       split
-      · rename_i items rest' heq
-        have := h1.2 _ _ heq
-        exact OkLe.ok (by omega)
-      · exact OkLe.err _
-      · rename_i heq; exact absurd heq h1.1
-    · split
-      · split
-        · exact OkLe.ok hn
+      · rename_i rest
+        simp only [List.length_cons] at hn
+        have h1 := ih1 types (d + 1) [] rest (by omega)
+        split
+        · rename_i items rest' heq
+          have := h1.2 _ _ heq
+          exact OkLe.ok (by omega)
         · exact OkLe.err _
-      · exact OkLe.err _
-  · have hn := optionalName_le toks
-    generalize optionalName toks = nt at hn ⊢
-    obtain ⟨name, toks'⟩ := nt
-    dsimp only at hn ⊢
-    split
-    · rename_i rest
-      simp only [List.length_cons] at hn
-      have h1 := ih2 types true [] rest (by omega)
+        · rename_i heq; exact absurd heq h1.1
+      · split
+        · split
+          · split
+            · exact OkLe.ok hn
+            · exact OkLe.err _
+          · exact OkLe.err _
+        · exact OkLe.err _
+    · have hn := optionalName_le toks
+      generalize optionalName toks = nt at hn ⊢
+      obtain ⟨name, toks'⟩ := nt
+      dsimp only at hn ⊢
       split
-      · rename_i items rest' heq
-        have := h1.2 _ _ heq
-        exact OkLe.ok (by omega)
-      · exact OkLe.err _
-      · rename_i heq; exact absurd heq h1.1
-    · split
-      · split
-        · exact OkLe.ok hn
+      · rename_i rest
+        simp only [List.length_cons] at hn
+        have h1 := ih2 types (d + 1) true [] rest (by omega)
+        split
+        · rename_i items rest' heq
+          have := h1.2 _ _ heq
+          exact OkLe.ok (by omega)
         · exact OkLe.err _
-      · exact OkLe.err _
-  · have hn := optionalName_le toks
-    generalize optionalName toks = nt at hn ⊢
-    obtain ⟨name, toks'⟩ := nt
-    dsimp only at hn ⊢
-    split
-    · rename_i rest
-      simp only [List.length_cons] at hn
-      have h1 := ih2 types false [] rest (by omega)
+        · rename_i heq; exact absurd heq h1.1
+      · split
+        · split
+          · split
+            · exact OkLe.ok hn
+            · exact OkLe.err _
+          · exact OkLe.err _
+        · exact OkLe.err _
+    · have hn := optionalName_le toks
+      generalize optionalName toks = nt at hn ⊢
+      obtain ⟨name, toks'⟩ := nt
+      dsimp only at hn ⊢
       split
-      · rename_i items rest' heq
-        have := h1.2 _ _ heq
-        exact OkLe.ok (by omega)
-      · exact OkLe.err _
-      · rename_i heq; exact absurd heq h1.1
-    · split
-      · split
-        · exact OkLe.ok hn
+      · rename_i rest
+        simp only [List.length_cons] at hn
+        have h1 := ih2 types (d + 1) false [] rest (by omega)
+        split
+        · rename_i items rest' heq
+          have := h1.2 _ _ heq
+          exact OkLe.ok (by omega)
         · exact OkLe.err _
-      · exact OkLe.err _
+        · rename_i heq; exact absurd heq h1.1
+      · split
+        · split
+          · split
+            · exact OkLe.ok hn
+            · exact OkLe.err _
+          · exact OkLe.err _
+        · exact OkLe.err _
+    · exact OkLe.err _
   · exact OkLe.err _
 
 theorem all_ok : ∀ f, PType f ∧ PSLoop f ∧ PTLoop f ∧ PTMem f ∧ PTDef f ∧ PMem f
-  | 0 => ⟨fun _ _ _ h => by omega, fun _ _ _ h => by omega, fun _ _ _ _ h => by omega, fun _ _ _ h => by omega,
-          fun _ _ h => by omega, fun _ _ h => by omega⟩
+  | 0 => ⟨fun _ _ _ _ h => by omega, fun _ _ _ _ h => by omega, fun _ _ _ _ _ h => by omega, fun _ _ _ _ h => by omega,
+          fun _ _ _ h => by omega, fun _ _ _ h => by omega⟩
   | f + 1 =>
     have ⟨h1, h2, h3, h4, h5, h6⟩ := all_ok f
     ⟨type_step f h2 h3, structLoop_step f h6 h2, taggedLoop_step f h4 h3, taggedMember_step f h5,
@@ -412,13 +424,13 @@ theorem all_ok : ∀ f, PType f ∧ PSLoop f ∧ PTLoop f ∧ PTMem f ∧ PTDef 
 
 theorem declStep_le (fuel : Nat) (types : TypeSet) (ifdata : Option Spec) (tok : ATok) (rest : List ATok)
     (h : 4 * rest.length + 4 ≤ fuel) : OkLe (declStep fuel types ifdata tok rest) rest.length := by
-  have hty := (all_ok fuel).1 types tok rest h
+  have hty := (all_ok fuel).1 types 0 tok rest h
   unfold declStep
   split
   · split
     · rename_i tg rest1
       simp only [List.length_cons] at h ⊢
-      have h1 := (all_ok fuel).2.2.2.2.1 types rest1 (by omega)
+      have h1 := (all_ok fuel).2.2.2.2.1 types 0 rest1 (by omega)
       split
       · rename_i blk rest2 heq
         have := h1.2 _ _ heq
